@@ -10,18 +10,22 @@ EXPLANATION = (
     "of any annotator's feature table, whether that feature is enabled or not (raises-iff clauses, loop invariant of the validation loop); (b) a "
     "disabled feature is not written by edits - RegionpropsAnnotator.update / EdgeAnnotator.update write exactly the ACTIVE keys (their ensures name "
     "the active flag of every table entry) and the primitives' contracts guard every recomputed attribute by that flag; the lineage rewrite of the "
-    "relabel walk happens iff the lineage feature is enabled (proved of the real walk body). BOUNDED STAND-INS (not proofs): enable_features / disable_features and the registry "
-    "(registry = static + enabled after every step; unknown key -> KeyError and nothing changed; values equal the reference after enabling with "
-    "recomputation) on seeded random interleavings of enable/disable/edits/undo/redo; the walk with the lineage feature switched off.")
+    "relabel walk happens iff the lineage feature is enabled (proved of the real walk body); (c) switching - for key lists of every length (contracts/registry.py): "
+    "GraphAnnotator.activate_features / deactivate_features set the flag of exactly the given keys of the annotator's table; AnnotatorRegistry.activate_features / "
+    "deactivate_features raise KeyError iff some key is in no annotator's table and then no table has changed, otherwise every annotator's flags are set; "
+    "Tracks.enable_features / disable_features: KeyError => tables and FeatureDict unchanged and nothing computed, otherwise the FeatureDict is the previous one plus / minus "
+    "exactly the given keys (existing entries kept, new ones carry the owning annotator's Feature) and the bulk computation is requested exactly once with the given keys iff "
+    "recompute. So 'registered = initially registered + enabled - disabled' holds by induction over any sequence of switches. "
+    "BOUNDED STAND-INS (not proofs): the values after enabling with recomputation (bulk compute() of the annotators) and whole interleavings of enable/disable/edits/undo/redo "
+    "against the reference; the walk with the lineage feature switched off.")
 ASSUMPTIONS = ["the track id of a SolutionTracks is never disabled (with it off the TrackAnnotator ignores every edit; outside the domain of C04-C06)",
                "an element deleted and re-created by an edit is a new element: its disabled attributes are not expected to be carried over"]
-NOT_UNDER_CONTRACT = ["Tracks.enable_features / disable_features", "AnnotatorRegistry.activate_features / deactivate_features / compute",
-                      "GraphAnnotator.activate_features / deactivate_features", "bulk compute() of the three annotators"]
+NOT_UNDER_CONTRACT = ["bulk compute() of the three annotators (AnnotatorRegistry.compute is recorded as a ghost call)", "registries with other than three annotators (user-appended ones)"]
 
 
 def units(tier):
-    from contracts import walk
-    return walk.units() + (primitives.units(names=["UpdateNodeAttrsC"]) + primitives.units(SEGP, names=["UpdateNodeAttrsC"]) + segprims.annotator_units())
+    from contracts import registry, walk
+    return registry.units() + walk.units() + (primitives.units(names=["UpdateNodeAttrsC"]) + primitives.units(SEGP, names=["UpdateNodeAttrsC"]) + segprims.annotator_units())
 
 
 def bounded(tier, seed):
